@@ -154,6 +154,26 @@ def search_c04(rng, n, S=None, kinds=None):
             pf.solvePDE(phi4, terms)
             S.check(bool(np.all(np.abs(np.asarray(phi4.value) - np.asarray(phi1.value)) <= 1e-10 * sclx)), f"C04:external-solver:{kind}",
                     "external solver path and default path disagree", inp, None, None)
+            # (5b) a variable whose BoundaryConditions object is shared with another variable that was solved first after an edit
+            bcsh = make_bcs(mc, spec)
+            pa = pf.CellVariable(mc.m, x0.copy(), bcsh); pb = pf.CellVariable(mc.m, x0.copy(), bcsh)
+            sd = getattr(bcsh, SIDES[1])
+            sd.a = 0.0; sd.b = 1.0; sd.c = rng.choice([1.5, -0.75, 2.25])
+            pf.solvePDE(pa, [pf.transientTerm(pa, dt, 1.0)] + [t_ for _, t_ in sp])
+            recb = RecordingSolver()
+            pf.solvePDE(pb, [pf.transientTerm(pb, dt, 1.0)] + [t_ for _, t_ in sp], externalsolver=recb)
+            Mb, Rb, xb_ = recb.calls[-1]
+            Mbc2, RHSbc2 = boundaryConditionsTerm(bcsh)
+            Mh2 = csr_array(Mbc2).copy(); Rh2 = np.array(RHSbc2, dtype=float, copy=True)
+            for term in [pf.transientTerm(pf.CellVariable(mc.m, x0.copy(), make_bcs(mc, spec)), dt, 1.0)] + [t_ for _, t_ in sp]:
+                if isinstance(term, tuple):
+                    Mh2 = Mh2 + term[0]; Rh2 = Rh2 + term[1]
+                elif term.ndim == 2:
+                    Mh2 = Mh2 + term
+                else:
+                    Rh2 = Rh2 + term
+            S.check(float(abs(csr_array(Mb) - Mh2).max()) <= 1e-12 * max(1.0, float(abs(Mh2).max())) and np.allclose(Rb, Rh2, rtol=1e-12, atol=1e-12 * max(1.0, float(np.max(np.abs(Rh2))))),
+                    f"C04:system-shared-bc:{kind}", "with a shared BoundaryConditions object the system handed to the solver is not (current boundary term + sum of the terms)", inp, None, None)
             # (6) linearity in sources, boundary data c, previous values
             s_ = rng.choice([2.0, -0.5, 3.0])
             Dm = -pf.diffusionTerm(make_facevar(mc, [np.array(a) for a in desc["D"]]))
